@@ -21,6 +21,9 @@ pub enum Container {
     },
     Bits { kind: Flat, bits: String },
     Quads { kind: Flat, syms: Vec<u8> },
+    /// a mutable bit vector grown by a history (`with_zeros(zeros)` or `new()` + `extend_with_zeros(zeros)`, then
+    /// `tail` pushed bit by bit or appended), iterated as `BitVectorMut` or frozen into a `BitVector`
+    BitsGrown { frozen: bool, zeros: usize, via_extend: bool, tail: String },
     /// `Default::default()` of a tree type (an empty sequence that never went through a constructor)
     TreeDefault { alias: Alias, ty: Ty },
     /// `Default::default()` of a bit / quad structure
@@ -44,6 +47,11 @@ pub enum Call {
     CountRest,
     /// `last()` of the rest (ends the history)
     LastRest,
+    /// `rfold` over the rest, i.e. what `rev()` adaptors drive (ends the history; double-ended iterators only)
+    RFoldRest,
+    /// `min_by_key` / `max_by_key` of the rest (first minimum, last maximum; ends the history)
+    MinRest,
+    MaxRest,
 }
 
 #[derive(Clone, Debug, PartialEq, Serialize, Deserialize)]
@@ -117,6 +125,23 @@ pub fn gen_case(run_seed: u64, tier: Tier) -> IterCase {
                 iter,
                 n,
             )
+        }
+        20..=31 if rng.chance(1, 6) => {
+            let zeros = match rng.below(3) {
+                0 => 512 * rng.urange(0, 3),
+                1 => 64 * rng.urange(0, 20),
+                _ => rng.urange(0, 1300),
+            };
+            let t = rng.urange(0, 90);
+            let tail: String = (0..t).map(|_| if rng.bool() { '1' } else { '0' }).collect();
+            let frozen = rng.bool();
+            let n = zeros + t;
+            let p = rng.usize_below(n + 2);
+            let mut kinds = vec![IterKind::Iter, IterKind::IntoIter, IterKind::Ones, IterKind::Zeros, IterKind::OnesFrom(p), IterKind::ZerosFrom(p)];
+            if frozen {
+                kinds.push(IterKind::RefIntoIter);
+            }
+            (Container::BitsGrown { frozen, zeros, via_extend: rng.bool(), tail }, *rng.pick(&kinds), n)
         }
         20..=31 => {
             let kind = *rng.pick(&[Flat::BitVector, Flat::BitVectorMut, Flat::DArray, Flat::DArray0]);
@@ -236,7 +261,19 @@ pub fn gen_case(run_seed: u64, tier: Tier) -> IterCase {
         // cut the history somewhere and consume the rest by internal iteration / count / last
         let k = rng.usize_below(calls.len() + 1);
         calls.truncate(k);
-        calls.push(*rng.pick(&[Call::FoldRest, Call::FoldRest, Call::CountRest, Call::LastRest]));
+        calls.push(*rng.pick(&[
+            Call::FoldRest,
+            Call::FoldRest,
+            Call::FoldRest,
+            Call::CountRest,
+            Call::CountRest,
+            Call::LastRest,
+            Call::LastRest,
+            Call::RFoldRest,
+            Call::RFoldRest,
+            Call::MinRest,
+            Call::MaxRest,
+        ]));
     }
     IterCase { container, iter, calls }
 }
@@ -246,6 +283,9 @@ fn iterator_type(c: &Container, k: IterKind) -> &'static str {
         (Container::Tree { .. } | Container::TreeDefault { .. }, _) => "WTIterator",
         (Container::Quads { .. }, _) => "QVectorIterator",
         (Container::FlatDefault { kind: Flat::QVector | Flat::RSQVector256 | Flat::RSQVector512 }, _) => "QVectorIterator",
+        (Container::BitsGrown { .. }, IterKind::IntoIter) => "BitVectorIntoIter",
+        (Container::BitsGrown { .. }, IterKind::Iter | IterKind::RefIntoIter) => "BitVectorIter",
+        (Container::BitsGrown { .. }, _) => "BitVectorBitPositionsIter",
         (Container::FlatDefault { .. }, IterKind::IntoIter) => "BitVectorIntoIter",
         (Container::FlatDefault { .. }, IterKind::Iter | IterKind::RefIntoIter) => "BitVectorIter",
         (Container::FlatDefault { .. }, _) => "BitVectorBitPositionsIter",
@@ -299,6 +339,19 @@ pub fn exec(case: &IterCase) -> RunOut {
             let t = build_quads(*kind, syms);
             (t, syms.iter().map(|&s| (s & 3) as u128).collect())
         }
+        Container::BitsGrown { frozen, zeros, via_extend, tail } => {
+            let mut b: Vec<bool> = vec![false; *zeros];
+            b.extend(tail.chars().map(|c| c == '1'));
+            let t = crate::ds::build_bits_grown(*frozen, *zeros, *via_extend, tail);
+            let all: Vec<u128> = match case.iter {
+                IterKind::Iter | IterKind::RefIntoIter | IterKind::IntoIter => b.iter().map(|&x| x as u128).collect(),
+                IterKind::Ones => (0..b.len()).filter(|&i| b[i]).map(|i| i as u128).collect(),
+                IterKind::Zeros => (0..b.len()).filter(|&i| !b[i]).map(|i| i as u128).collect(),
+                IterKind::OnesFrom(p) => (0..b.len()).filter(|&i| b[i] && i >= p).map(|i| i as u128).collect(),
+                IterKind::ZerosFrom(p) => (0..b.len()).filter(|&i| !b[i] && i >= p).map(|i| i as u128).collect(),
+            };
+            (t, all)
+        }
         Container::TreeDefault { alias, ty } => (default_tree(*alias, *ty), vec![]),
         Container::FlatDefault { kind } => (default_flat(*kind), vec![]),
     });
@@ -311,6 +364,17 @@ pub fn exec(case: &IterCase) -> RunOut {
             return out;
         }
     };
+    // the container, however it came to be: as built, reloaded, a clone, or an existing value overwritten by clone_from
+    let life = (case.calls.len() as u64 + elems.len() as u64) % 5;
+    let (ds, how) = crate::ds::incarnate(ds, life, || match &case.container {
+        Container::Tree { alias, ty, .. } | Container::TreeDefault { alias, ty } => catch(|| build_tree(*alias, *ty, Path::FromVec, &[3, 1, 2, 1, 0])).ok(),
+        Container::Bits { kind, .. } | Container::FlatDefault { kind } if !matches!(kind, Flat::QVector | Flat::RSQVector256 | Flat::RSQVector512) => {
+            catch(|| build_bits(*kind, &[true, false, true, true])).ok()
+        }
+        Container::BitsGrown { frozen, .. } => catch(|| build_bits(if *frozen { Flat::BitVector } else { Flat::BitVectorMut }, &[true, false, true, true])).ok(),
+        Container::Quads { kind, .. } | Container::FlatDefault { kind } | Container::Bits { kind, .. } => catch(|| build_quads(*kind, &[1, 2, 3, 0, 1])).ok(),
+    });
+    out.count(&format!("incarnation.{how}"), 1);
     out.nontrivial = elems.len() >= 2 && case.calls.len() >= 3;
     out.count(&format!("iterator.{fam}"), 1);
     let mut model: VecDeque<u128> = elems.iter().copied().collect();
@@ -468,6 +532,49 @@ pub fn exec(case: &IterCase) -> RunOut {
                     Err(msg) => out.violate(sig("fold", panic_kind(&msg), shape), format!("call #{k} fold() over the rest of {fam} panicked: {msg}")),
                 }
                 out.count("probe.rest_consumed_by_fold", 1);
+                break;
+            }
+            Call::RFoldRest => {
+                let boxed = it_slot.take().unwrap();
+                let rest: Vec<u128> = model.drain(..).rev().collect();
+                match catch(|| boxed.rfold_rest()) {
+                    Ok(None) => out.count("rfold_not_offered", 1),
+                    Ok(Some(g)) => {
+                        for x in &g {
+                            digest.u128(*x);
+                        }
+                        if g != rest {
+                            let first = g.iter().zip(&rest).position(|(a, b)| a != b).unwrap_or(g.len().min(rest.len()));
+                            out.violate(
+                                sig("rfold", "wrong_value", shape),
+                                format!("call #{k} rfold() over the rest of {fam} ({n0} elements, {} already yielded) produced {} elements, first difference at offset {first} from the back; {} elements were left", n0 - rest.len(), g.len(), rest.len()),
+                            );
+                        }
+                    }
+                    Err(msg) => out.violate(sig("rfold", panic_kind(&msg), shape), format!("call #{k} rfold() over the rest of {fam} panicked: {msg}")),
+                }
+                out.count("probe.rest_consumed_by_rfold", 1);
+                break;
+            }
+            Call::MinRest | Call::MaxRest => {
+                let boxed = it_slot.take().unwrap();
+                let is_min = *call == Call::MinRest;
+                let e = if is_min { model.iter().copied().min() } else { model.iter().copied().max() };
+                let left = model.len();
+                model.clear();
+                let name = if is_min { "min_by_key" } else { "max_by_key" };
+                match catch(|| if is_min { boxed.min_rest() } else { boxed.max_rest() }) {
+                    Ok(g) => {
+                        digest.opt_u128(g);
+                        if g != e {
+                            out.violate(
+                                sig(name, "wrong_value", shape),
+                                format!("call #{k} {name}() over the rest of {fam} ({n0} elements, {left} left) returned {g:?}, the sequence gives {e:?}"),
+                            );
+                        }
+                    }
+                    Err(msg) => out.violate(sig(name, panic_kind(&msg), shape), format!("call #{k} {name}() over the rest of {fam} panicked: {msg}")),
+                }
                 break;
             }
             Call::Next => {
